@@ -208,8 +208,19 @@ func checkSpec(ctx *Ctx, id string) {
 		if name == "semver" {
 			var rq []string
 			var cs []string
-			for _, s := range cands {
-				if isASCII(s) && strings.TrimSpace(s) == s {
+			// the BNF is over ASCII: a text with any other byte is invalid, whatever Unicode makes
+			// of it (letters that case-fold to ASCII ones, digits of other scripts); the recogniser
+			// is byte-exact, so such texts are compared too (outer Unicode white space excepted:
+			// TrimSpace removes it before the grammar is consulted)
+			rn := NewRNG(ctx.Seed, "C08/nonascii")
+			extra := []string{}
+			for i, s := range p.Strs {
+				if i%3 == 0 {
+					extra = append(extra, nonASCIIInside(rn, s))
+				}
+			}
+			for _, s := range append(append([]string{}, cands...), extra...) {
+				if strings.TrimSpace(s) == s {
 					rq = append(rq, "SV semver "+hx(s))
 					cs = append(cs, s)
 				}
@@ -235,6 +246,17 @@ func checkSpec(ctx *Ctx, id string) {
 				pairs = append(pairs, ij{i, j})
 			}
 		}
+		// parse-and-compare of the same pairs from several goroutines at once (concur.go): the
+		// order a caller observes must not depend on who else is parsing
+		concurrentRecheck(ctx, name, "parse+Compare/"+name, len(pairs),
+			func(k int) string {
+				a, b := e.Parse(p.Strs[pairs[k].i]), e.Parse(p.Strs[pairs[k].j])
+				if !a.OK || !b.OK {
+					return "rejected"
+				}
+				return fmt.Sprint(cmpS(e, a.Val, b.Val))
+			},
+			func(k int) any { return []string{p.Strs[pairs[k].i], p.Strs[pairs[k].j]} })
 		ans, err = ctx.Pool.Map(reqs)
 		if err != nil {
 			res.Notes = append(res.Notes, "model error: "+err.Error())
